@@ -1298,6 +1298,56 @@ def replay_param_conflict_values(a):
         shutil.rmtree(d, ignore_errors=True)
 
 
+def replay_params_modes(a):
+    """input parameters (-i) with one and several data files, map and list documents: the plain run and the --structured
+    run must give every data file the same status and the same exit code (the plain JSON report is the reference)"""
+    import os, shutil, subprocess, tempfile
+    exe = a.cli()
+    if not exe:
+        return {"reproduced": False, "note": "native build failed"}
+    cases = {
+        "maps, rule needs the parameter on every file": ("rule r {\n  p == 1\n  a exists\n}\n", '{"p":\n 1}\n', ['{"a":\n 1}\n', '{"a":\n 2}\n', '{"a":\n 3}\n']),
+        "lists, rule looks at position 0": ("rule first {\n  this[0].kind == \"baseline\"\n}\n", '[ {"kind":\n "baseline"} ]\n', ['[ {"kind":\n "workload"} ]\n']),
+        "lists, rule looks at the last position": ("rule last {\n  this[1].kind == \"workload\"\n}\n", '[ {"kind":\n "baseline"} ]\n', ['[ {"kind":\n "workload"} ]\n', '[ {"kind":\n "workload"} ]\n']),
+    }
+    d = tempfile.mkdtemp(prefix="cfnverif_replay_")
+    env = dict(os.environ)
+    env["RUST_BACKTRACE"] = "0"
+    out, tried = [], []
+    try:
+        for label, (rules, params, datas) in cases.items():
+            open(os.path.join(d, "r.guard"), "w").write(rules)
+            open(os.path.join(d, "p.json"), "w").write(params)
+            args = ["validate", "-r", "r.guard", "-i", "p.json"]
+            for i, t in enumerate(datas):
+                open(os.path.join(d, f"d{i}.json"), "w").write(t)
+                args += ["-d", f"d{i}.json"]
+            pl = subprocess.run([exe] + args + ["-o", "json", "--show-summary", "none"], cwd=d, capture_output=True, text=True, env=env, timeout=120)
+            stt = subprocess.run([exe] + args + ["--structured", "-o", "json", "--show-summary", "none"], cwd=d, capture_output=True, text=True, env=env, timeout=120)
+            plain, dec, txt, i = {}, json.JSONDecoder(), pl.stdout, 0
+            try:
+                while i < len(txt):
+                    while i < len(txt) and txt[i].isspace():
+                        i += 1
+                    if i >= len(txt):
+                        break
+                    o, i = dec.raw_decode(txt, i)
+                    plain[os.path.basename(o["name"])] = o["status"]
+                struct = {os.path.basename(o["name"]): o["status"] for o in json.loads(stt.stdout)}
+            except Exception as e:
+                tried.append({"case": label, "problem": f"no report ({e})", "exits": [pl.returncode, stt.returncode]})
+                continue
+            ok = plain == struct and pl.returncode == stt.returncode and len(plain) == len(datas)
+            tried.append({"case": label, "ok": ok})
+            if not ok:
+                out.append({"case": label, "rules_file": rules, "parameters": params, "data": datas, "plain": plain, "plain_exit": pl.returncode,
+                            "structured": struct, "structured_exit": stt.returncode})
+        return {"reproduced": bool(out), "mismatches": out[:3], "tried": tried,
+                "note": "; ".join(t["problem"] for t in tried if "problem" in t) or None}
+    finally:
+        shutil.rmtree(d, ignore_errors=True)
+
+
 def param_files_fold_step(a):
     """Validate::execute, the loop that folds the --input-parameters files into one document: one step from an arbitrary
     state. Region = from the directory-walk `next()` to the next one."""
@@ -1520,6 +1570,8 @@ def structured_merge_closure(a):
         c["replay"] = replay_batch(a)
         if not c["replay"].get("reproduced"):
             c["replay"] = replay_param_conflict(a)
+        if not c["replay"].get("reproduced"):
+            c["replay"] = replay_params_modes(a)
         c["reproduced"] = c["replay"].get("reproduced", False)
         a.candidates.append(c)
 
@@ -2569,7 +2621,8 @@ def replay_library(a):
 SITES = {
     "C06": [structured_report, structured_parse_closure, junit_exit_code, junit_test_case, junit_report, validate_execute_step, test_generic_report],
     "C12": [structured_report, junit_test_case, data_input_wiring, data_input_params_wiring, structured_merge_closure, test_get_by_result, test_structured_evaluate],
-    "C07": [flags_verdict_wiring, reporter_chain, library_entry_wiring, structured_report, junit_test_case, validate_execute_step],
+    "C07": [flags_verdict_wiring, reporter_chain, library_entry_wiring, structured_report, junit_test_case, validate_execute_step,
+            data_input_params_wiring, structured_merge_closure],
     "C16": [test_generic_report, test_get_by_result, test_get_by_rules, test_structured_evaluate],
     "C09": [report_partition, report_rule_listing],
     "C15": [scope_resolution, param_rule_call, param_ctx_resolve],
